@@ -77,8 +77,12 @@ def r1_build(ck, cx):
                 rep = seq[3]
                 esc = list(rep[1])
                 ok = seq[1][1:] == ('B', 'message.unit_id') and seq[2][1:] == ('B', 'message.function_code') and rep[2] == ENC and \
-                    len(esc) == 2 and esc[0][0] == 'ALT' and esc[0][1] == '$e in self._repeat' and list(esc[0][2]) == [('F', 'B', '$e')] and not esc[0][3] \
-                    and esc[1] == ('F', 'B', '$e')
+                    len(esc) == 2
+                # the doubled byte and the byte itself are the same value: either order writes the same bytes
+                alts = [x for x in esc if x[0] == 'ALT']
+                plain = [x for x in esc if x[0] == 'F']
+                ok = ok and len(alts) == 1 and len(plain) == 1 and alts[0][1] == '$e in self._repeat' and list(alts[0][2]) == [('F', 'B', '$e')] \
+                    and not alts[0][3] and plain[0] == ('F', 'B', '$e')
                 crc = seq[4]
                 ok = ok and crc[1] == '>H' and crc[2].startswith('computeCRC(seq[B:message.unit_id B:message.function_code rep[')
                 rp = instance_constants(cx, cls)
@@ -179,9 +183,12 @@ def r2_agreement(ck, cx, builds):
         # populateResult binding
         pfn = cx.method(cls, 'populateResult')
         binds = {}
-        for n in ast.walk(pfn.node):
-            if isinstance(n, ast.Assign) and isinstance(n.targets[0], ast.Attribute) and isinstance(n.value, ast.Subscript) and U(n.value.value) == 'self._header':
-                binds[n.targets[0].attr] = cx.ce.try_ev(n.value.slice, pfn.mod, cls)
+        for pp in cx.enum(pfn, cls, max_depth=1):
+            annotate(pp, heap=False)
+            for ev in pp.ev:
+                v = getattr(ev, '_sub', None)
+                if ev.kind == 'assign' and isinstance(ev.a, ast.Attribute) and isinstance(v, ast.Subscript) and U(v.value) == 'self._header':
+                    binds[ev.a.attr] = cx.ce.try_ev(v.slice, pfn.mod, cls)
         if kind == 'tcp':
             cf = cx.method(cls, 'checkFrame')
             okh = False
